@@ -18,4 +18,15 @@ theorem compare_all_tag_bytes (H : Nat) (hH : 1 ≤ H) (h : Nat) (hh : h ≤ 2) 
         = Spec.HMAC.hmac (Spec.HMAC.hashOf h) key (fp.data.drop fp.pos))) :=
   Proofs.HmacCorrect.cmphmac_iff H hH h hh key hk fp hpos hm stored
 
+/-- the tag has the digest size of the hash mode — 20, 16 or 32 bytes — for every key and text, so it always fits the 32 bytes
+    reserved at offset 10 (and `compare_all_tag_bytes` compares exactly that many bytes) -/
+theorem tag_length (h : Nat) (key text : Bytes) : (Spec.HMAC.hmac (Spec.HMAC.hashOf h) key text).length = Spec.HMAC.tagLen h := by
+  unfold Spec.HMAC.hmac
+  rcases h with _ | _ | h
+  · simp [Spec.HMAC.hashOf, Spec.HMAC.tagLen, Spec.Hash.SHA1.hash, Spec.Hash.SHA1.digestBytes, Spec.Hash.be32Bytes]
+  · simp [Spec.HMAC.hashOf, Spec.HMAC.tagLen, Spec.Hash.MD5.hash, Spec.Hash.MD5.digestBytes, Spec.Hash.le32Bytes]
+  · simp [Spec.HMAC.hashOf, Spec.HMAC.tagLen, Spec.Hash.SHA256.hash, Spec.Hash.SHA256.digestBytes, Spec.Hash.be32Bytes]
+theorem tag_fits_reserved_area (h : Nat) (key text : Bytes) : (Spec.HMAC.hmac (Spec.HMAC.hashOf h) key text).length ≤ 32 := by
+  rw [tag_length]; unfold Spec.HMAC.tagLen; split <;> omega
+
 end Wencry.Props.C08
